@@ -28,7 +28,7 @@ def main():
     load_all()
     if not keys:
         keys = [k for k, c in REG.items() if not c.trusted]
-    with mp.get_context('fork').Pool(14) as pool:
+    with mp.get_context('fork').Pool(14, maxtasksperchild=1) as pool:  # one key per process, as in the checks
         res = pool.map(one, keys, chunksize=1)
     bad = 0
     tot = 0
